@@ -56,11 +56,13 @@ def _run(ids, a, sd, allchecks, results):
                 if c not in allchecks:
                     continue
                 p = sh([sys.executable, os.path.join(ROOT, "tools", "check.py"), c, "--tier", a.tier], cwd=ROOT)
+                os.makedirs(os.path.join(ROOT, "work", "seeded_logs"), exist_ok=True)
+                open(os.path.join(ROOT, "work", "seeded_logs", f"{i}_{c}.log"), "w").write(p.stdout + p.stderr)
                 vio = [l for l in p.stdout.split("\n") if l.startswith("VIOLATION")]
                 first = [l for l in p.stdout.split("\n") if l.strip().startswith("violation:")][:1]
                 row[c] = {"caught": p.returncode != 0, "concrete": bool(vio) and "no-failing-input-found" not in vio[0], "first": (first[0].strip()[:300] if first else "")}
                 print(f"{i} {c}: {'CAUGHT' if p.returncode else 'missed'} {'(concrete)' if row[c]['concrete'] else ''} {row[c]['first'][:120]}")
-            results[i] = row
+            results.setdefault(i, {}).update(row)
         finally:
             sh(["git", "-C", REPO, "checkout", "--", "."])
             sh([sys.executable, os.path.join(ROOT, "tools", "translate.py")])   # regenerate the tables from the restored tree
